@@ -152,3 +152,108 @@ def _bin_roots(m, f, pv):
                 if r not in seen:
                     seen.append(r)
     return seen
+
+
+def closure_truth(m, g, classify, limit=4000):
+    """truth table of a small loop-free boolean function / closure over named atoms.
+
+    classify(call) -> None | (atom name, negated?)   names the boolean a call of g computes.
+    Returns a list of (assignment, value): one entry per path from the entry to a return, assignment = {atom: bool} as decided
+    by the switches on that path, value = True | False | ('atom', name, neg) | '?' (what the function returns on that path).
+    None when the function has a loop or more than `limit` paths. Switches on something that is not an atom are followed both
+    ways (the condition stays unconstrained: both outcomes are reported)."""
+    pv = Prov(m, "value")
+    atoms = {}
+    for c in g.calls():
+        a = classify(c)
+        if a is not None:
+            atoms[(c.q, c.b)] = a
+
+    def atom_of(r):
+        neg = False
+        while r[0] == "not":
+            neg = not neg
+            r = r[1]
+        if r[0] == "call" and (r[1], r[2]) in atoms and not r[3]:
+            n, ng = atoms[(r[1], r[2])]
+            return n, neg != ng
+        return None
+
+    out = []
+    paths = [0]
+
+    def walk(b, asg, val, seen):
+        if b in seen:
+            raise RecursionError
+        paths[0] += 1
+        if paths[0] > limit:
+            raise RecursionError
+        seen = seen | {b}
+        blk = g.blocks[b]
+        for s in blk["s"]:
+            if s[0] == "A" and s[1][0] == 0 and not s[1][1]:
+                rv = s[2]
+                if rv[0] == "use" and rv[1][0] == "k" and rv[1][1].get("ty") == "bool" and "int" in rv[1][1]:
+                    val = bool(int(rv[1][1]["int"]))
+                else:
+                    r = None
+                    if rv[0] == "use":
+                        r = pv.root(g, rv[1])
+                    elif rv[0] == "un" and rv[1] == "Not":
+                        r = ("not", pv.root(g, rv[2]))
+                    a = atom_of(r) if r is not None else None
+                    val = ("atom", a[0], a[1]) if a else "?"
+        t = blk["t"]
+        if t[0] == "call":
+            if t[3][0] == 0 and not t[3][1]:
+                a = atoms.get((t[1].get("q") or "", b))
+                val = ("atom", a[0], a[1]) if a else "?"
+            if t[4] is not None:
+                walk(t[4], asg, val, seen)
+            return
+        if t[0] == "ret":
+            v = val
+            if isinstance(v, tuple) and v[1] in asg:
+                v = asg[v[1]] != v[2]
+            out.append((dict(asg), v))
+            return
+        if t[0] == "switch":
+            a = atom_of(pv.root(g, t[1]))
+            cases = [(v, tb) for v, tb in t[2]] + [("otherwise", t[3])]
+            if a is None:
+                for _, tb in cases:
+                    walk(tb, asg, val, seen)
+                return
+            name, neg = a
+            for lbl, tb in cases:
+                truth = (lbl != "0") != neg if lbl != "otherwise" else (not neg if all(v == "0" for v, _ in t[2]) else None)
+                if truth is None:
+                    walk(tb, asg, val, seen)
+                    continue
+                if name in asg and asg[name] != truth:
+                    continue
+                a2 = dict(asg)
+                a2[name] = truth
+                walk(tb, a2, val, seen)
+            return
+        for sx in g.succ(b):
+            if g.blocks[sx]["t"][0] in ("resume", "abort", "unreachable") and not g.blocks[sx]["s"]:
+                continue
+            walk(sx, asg, val, seen)
+
+    try:
+        walk(0, {}, "?", frozenset())
+    except RecursionError:
+        return None
+    return out
+
+
+def table_value(table, total):
+    """the set of values the function can return under the total assignment `total` ({atom: bool})"""
+    vals = set()
+    for asg, v in table:
+        if all(total.get(k) == x for k, x in asg.items()):
+            if isinstance(v, tuple):
+                v = total[v[1]] != v[2] if v[1] in total else "?"
+            vals.add(v)
+    return vals
